@@ -266,7 +266,8 @@ def _flush_contract():
             # C08's "is written at a later wake": a release whose writes all succeed leaves nothing of that node behind
             P("C07+C08/released-gone", "forall(lambda q: implies(k3n(q) == n, not (q in SM)), 'key3')"),
             P("C07/only-that-node", "forall(lambda q: implies(k3n(q) != n, (q in SM) == old(q in SM) and implies(q in SM, SM[q] is old(SM[q]))), 'key3')"),
-            P("C07+C08/each-released-once", f"forall(lambda x: wcnt(x) == old(wcnt(x)) + (1 if {RELEASED} else 0), 'Message')"),
+            # C12's second way for a send to end: "held for a sleeping destination and handed to the transport at that node's next wake"
+            P("C07+C08+C12/each-released-once", f"forall(lambda x: wcnt(x) == old(wcnt(x)) + (1 if {RELEASED} else 0), 'Message')"),
             H("C07/log-grows", "wlen() >= old(wlen())"),
             P("C10/release-leaves-request-markers-alone", "same_dict(message_buffer.internal_messages)"),
             P("C08/a-failed-write-is-reported", NOFAIL),
@@ -279,7 +280,8 @@ def _flush_contract():
             CANARY("C08/canary-failure-loses-nothing", "same_dict(SM)"),
             H("C08/done-is-of-that-node", "forall(lambda q: implies(q in done, old(q in SM) and k3n(q) == n), 'key3')"),
             P("C08/written-ones-gone", "forall(lambda q: implies(q in done, not (q in SM)), 'key3')"),
-            P("C08/unwritten-stay", "forall(lambda q: implies(not (q in done), (q in SM) == old(q in SM) and implies(q in SM, SM[q] is old(SM[q]))), 'key3')"),
+            # (C12: a held message that was not handed to the transport is still held - "never silently discarded")
+            P("C08+C12/unwritten-stay", "forall(lambda q: implies(not (q in done), (q in SM) == old(q in SM) and implies(q in SM, SM[q] is old(SM[q]))), 'key3')"),
             P("C08/no-repeat", "forall(lambda x: wcnt(x) == old(wcnt(x)) + (1 if old(key3(x) in SM and SM[key3(x)] is x) and old(key3(x)) in done else 0), 'Message')"),
         ]},
     )
